@@ -1393,6 +1393,8 @@ class Interp:
                 return True
             if isinstance(a, bool) or isinstance(b, bool):
                 return False
+            if not (isinstance(a, (Sym, int, Fraction, str)) and isinstance(b, (Sym, int, Fraction, str))):
+                return False  # a number/string is never identical to an object of another kind
             raise Unsupported("identity of scalars")
         return a is b
 
